@@ -385,7 +385,7 @@ pub fn exec_iso(plan: &IsoPlan) -> RunOut {
         for ci in 0..plan.n_clients {
             // same client ids, same clock timeline, only this client's requests; ids the server
             // issues differ (another id seed), so the client's own versions are translated by position
-            crate::world::begin_run(plan.seed ^ (0x150 + ci as u64), plan.start_us);
+            crate::world::begin_run_styled(plan.seed ^ (0x150 + ci as u64), plan.start_us, plan.seed);
             let mut solo = match World::new(plan.seed, plan.backend, plan.entry, plan.page_size, plan.n_clients, plan.cfg, None) {
                 Ok(w) => w,
                 Err(e) => {
